@@ -2,6 +2,7 @@ package link_solicit
 
 import (
 	"bytes"
+	"encoding/binary"
 	"slices"
 
 	"github.com/aperturerobotics/bifrost/peer"
@@ -36,10 +37,19 @@ func ComputeSessionID(peerA, peerB peer.ID) []byte {
 	return sum[:HashSize]
 }
 
-// ComputeProtocolHash returns BLAKE3(session_id || protocol_id || context).
+// ComputeProtocolHash returns
+// BLAKE3(session_id || len(protocol_id) || protocol_id || context).
+//
+// The protocol ID is prefixed with its length (8 bytes, big endian) so that
+// the boundary between the protocol ID and the context is unambiguous:
+// ("ab", "c") and ("a", "bc") must not produce the same hash.
 func ComputeProtocolHash(sessionID []byte, protocolID protocol.ID, context []byte) []byte {
+	var idLen [8]byte
+	binary.BigEndian.PutUint64(idLen[:], uint64(len(protocolID)))
+
 	h := blake3.New()
 	h.Write(sessionID)
+	h.Write(idLen[:])
 	h.Write([]byte(protocolID))
 	h.Write(context)
 
